@@ -175,9 +175,8 @@ pub fn specs(tier: Tier) -> Vec<GenSpec> {
 pub fn run(tier: Tier) -> i32 {
     let info = RunInfo::new("C03", tier);
     let specs = specs(tier);
-    let counter = std::sync::atomic::AtomicU64::new(0);
     let st = par_enumerate(&specs, |_spec, net, st| {
-        let idx = counter.fetch_add(1, std::sync::atomic::Ordering::Relaxed);
+        let idx = net.hash_idx();
         for_net(net, tier, idx, st);
         if net.n == 4 && net.m() == 4 {
             st.sample(1, || json!({"example_world": worlds(net, tier, idx).first()}));
